@@ -621,30 +621,32 @@ end examples
 `Generated/Tags.lean` is rewritten by the translator from the string literals of
 `schnorr_proof_challenge`, `cp_proof_challenge`, the eight context constructors,
 `shuffle_proof_us`, `shuffle_proof_challenge` and `generators_fips`, in source order.  A tag that
-is renamed, dropped, added or reordered in the source breaks one of these kernel-checked facts. -/
+is renamed, dropped, added or duplicated in the source breaks one of these kernel-checked facts; the ORDER in
+which the source inserts the entries of one map does not matter (`order_independent`), so the facts are stated up
+to permutation (a harmless reordering must not raise an alarm). -/
 
-theorem schnorr_tags_from_source : schnorrKeys = Generated.schnorrTags.map tag := by decide
-theorem cp_tags_from_source : cpKeys = Generated.cpTags.map tag := by decide
+theorem schnorr_tags_from_source : schnorrKeys.Perm (Generated.schnorrTags.map tag) := by decide
+theorem cp_tags_from_source : cpKeys.Perm (Generated.cpTags.map tag) := by decide
 theorem ctx_label_tags_from_source :
-    ctxLabelKeys = Generated.schnorrProveCtxTags.map tag ∧
-    ctxLabelKeys = Generated.schnorrVerifyCtxTags.map tag ∧
-    ctxLabelKeys = Generated.cpProveCtxTags.map tag ∧
-    ctxLabelKeys = Generated.cpVerifyCtxTags.map tag := by decide
+    ctxLabelKeys.Perm (Generated.schnorrProveCtxTags.map tag) ∧
+    ctxLabelKeys.Perm (Generated.schnorrVerifyCtxTags.map tag) ∧
+    ctxLabelKeys.Perm (Generated.cpProveCtxTags.map tag) ∧
+    ctxLabelKeys.Perm (Generated.cpVerifyCtxTags.map tag) := by decide
 theorem ctx_mhr_tags_from_source :
-    ctxMhrKeys = Generated.popkCtxTags.map tag ∧
-    ctxMhrKeys = Generated.popkVerifyCtxTags.map tag ∧
-    ctxMhrKeys = Generated.decryptionProofCtxTags.map tag ∧
-    ctxMhrKeys = Generated.verifyDecryptionCtxTags.map tag := by decide
+    ctxMhrKeys.Perm (Generated.popkCtxTags.map tag) ∧
+    ctxMhrKeys.Perm (Generated.popkVerifyCtxTags.map tag) ∧
+    ctxMhrKeys.Perm (Generated.decryptionProofCtxTags.map tag) ∧
+    ctxMhrKeys.Perm (Generated.verifyDecryptionCtxTags.map tag) := by decide
 theorem shuffle_us_tags_from_source :
-    usPrefixKeys ++ usInputKeys = Generated.shuffleUsTags.map tag := by decide
+    (usPrefixKeys ++ usInputKeys).Perm (Generated.shuffleUsTags.map tag) := by decide
 theorem shuffle_challenge_tags_from_source :
-    shuffleKeys = Generated.shuffleChallengeTags.map tag := by decide
+    shuffleKeys.Perm (Generated.shuffleChallengeTags.map tag) := by decide
 /-- prover and verifier of every sigma proof build the SAME context key set -/
 theorem prover_verifier_context_tags_agree :
-    Generated.schnorrProveCtxTags = Generated.schnorrVerifyCtxTags ∧
-    Generated.cpProveCtxTags = Generated.cpVerifyCtxTags ∧
-    Generated.popkCtxTags = Generated.popkVerifyCtxTags ∧
-    Generated.decryptionProofCtxTags = Generated.verifyDecryptionCtxTags := by decide
+    Generated.schnorrProveCtxTags.Perm Generated.schnorrVerifyCtxTags ∧
+    Generated.cpProveCtxTags.Perm Generated.cpVerifyCtxTags ∧
+    Generated.popkCtxTags.Perm Generated.popkVerifyCtxTags ∧
+    Generated.decryptionProofCtxTags.Perm Generated.verifyDecryptionCtxTags := by decide
 /-- the generator derivation's domain-separation tag -/
 theorem generator_tag_from_source (P : Params) (fl : Flavour) (seed : Bytes) (i : Nat) :
     genAt P fl seed i = genLoop P fl i genFuel (seed ++ asciiBytes Generated.generatorTagBigint) 0 ∧
